@@ -17,15 +17,17 @@ RULE = ('A case is a batch of hypernym digraphs (edge i->j = "j is a hypernym of
         'n<=3 nodes (530, each in a plain and in a labelled a/s variant), in the thorough tier '
         'every labelled digraph on 4 nodes (65536), Hypothesis-drawn 4-node masks of mixed '
         'density, and random graphs on 5-8 nodes (DAG-biased, cycle-biased, forest, '
-        'diamond-stack, layered; thinned to <=120 maximal chains). For every graph: roots/leaves/'
-        'taxonomy_depth per part of speech, hypernym_paths/min_depth/max_depth per node, '
+        'diamond-stack, layered, two-LCS gadget; thinned to <=120 maximal chains). For every '
+        'graph: roots/leaves/taxonomy_depth per part of speech, hypernym_paths/min_depth/max_depth per node, '
         'common/lowest_common_hypernyms/shortest_path per ordered pair (all pairs for n<=5, 16 '
         'drawn pairs above), each with simulate_root False and True, compared with brute-force '
         'reference functions. Non-trivial graph: multiple inheritance, >=2 roots or a cycle; the '
         'class histogram counts graphs, not batches.')
 ASSUMPTIONS = [
     'roots/leaves: a self-loop counts as a declared hypernym/hyponym; leaves are only compared '
-    'when the reciprocal hyponym relations are declared (otherwise "without hyponyms" is ambiguous)',
+    'when the reciprocal hyponym relations are declared (otherwise "without hyponyms" is '
+    'ambiguous); for pos a/s both the merged and the exact-pos result are accepted (the docs of '
+    'roots/leaves say "only the specified part of speech", the quantifier says a/s merge)',
     'lowest_common_hypernyms and taxonomy_depth are compared on DAGs only; "depth" = max_depth '
     '(docs: "furthest from the root")',
     'simulate_root on cyclic graphs: only termination, no error, genuine path, symmetry, '
@@ -49,7 +51,6 @@ def _names(idx, synsets):
 
 
 def _check_graph(lab, i, desc, out):
-    import wn
     import wn.taxonomy as T
 
     d = G.norm(desc)
@@ -326,7 +327,7 @@ SUBS = [
                         'simulate_root False and True',
         case_timeout=600, timeout_is_violation=True, sample=_sample, purge_every=8,
         require_tags=('has-cycle', 'multiple-inheritance', '>=2-roots', 'self-loop', 'diamond',
-                      '>=2-LCS', 'a/s-mix', 'instance-edges', 'no-reciprocal')),
+                      'a/s-mix', 'instance-edges', 'no-reciprocal')),
     Sub('enum-n=4', oracle, _classify, enumerate=_enum_4,
         exhaustive_note='thorough tier: all 65536 labelled digraphs on 4 nodes (labelling and '
                         'pos layout a fixed function of the edge mask); all ordered pairs',
@@ -338,5 +339,5 @@ SUBS = [
         budget={'quick': 30, 'thorough': 34},
         case_timeout=900, timeout_is_violation=True, sample=_sample, purge_every=8,
         require_tags=('family:dag', 'family:cyclic', 'family:forest', 'family:diamonds',
-                      'family:layered')),
+                      'family:layered', 'family:two-lcs', '>=2-LCS')),
 ]
